@@ -270,13 +270,20 @@ class Model(object):
                 if fi.module in generated:
                     continue       # generated bindings: reflected, not read
                 self.desugared += desugar.desugar_function(fi.node)
-        self._fold_all()
+        changed = self._fold_all()
+        # an expression written back in place may have a statement form of its
+        # own (a generator handed to extend(), a conditional expression ...)
+        if changed and not os.environ.get("VERIF_NO_DESUGAR"):
+            for q in changed:
+                self.desugared += desugar.desugar_function(self.funcs[q].node)
+            self._fold_all()
         for q, fi in self.funcs.items():
             self._alpha(q, fi.node)
 
     def _fold_all(self):
         if os.environ.get("VERIF_NO_FOLD"):
-            return
+            return []
+        changed = []
         from . import foldtemps, tables
         generated = set(tables.schema_modules(self))
         for q, fi in self.funcs.items():
@@ -292,6 +299,8 @@ class Model(object):
                         if isinstance(a, ast.arg)})
             if k:
                 self.folded[short] = self.folded.get(short, 0) + k
+                changed.append(q)
+        return changed
 
     def _alpha(self, qual, node):
         """Map renamed locals back onto the reference names (sa/alpha.py)."""
